@@ -3,6 +3,7 @@ extern crate rsdd;
 
 pub mod core;
 pub mod tt;
+pub mod bigtt;
 pub mod walk;
 pub mod enumerate;
 pub mod jsonread;
